@@ -23,7 +23,7 @@ ASSUMPTIONS = ['whether shutdown() itself raises is not asserted, only that ever
                'repeat start means start() on the same Deep instance']
 EXHAUSTIVE = ['pre-existing sys hook x pre-existing threading hook x NO_TRACE x op sequence (24 lifecycles, no fault)']
 REQUIRE = {'lifecycles': 80, 'hook_observations': 180, 'faulted_shutdowns': 40, 'post_shutdown_probes': 60,
-           'no_trace_lifecycles': 20, 'plugin_shutdown_faults': 15}
+           'no_trace_lifecycles': 10, 'plugin_shutdown_faults': 15}
 SHARD_TIMEOUT = {'quick': 400, 'thorough': 2400}
 SEQS = [['start', 'shutdown'], ['start', 'start', 'shutdown'], ['start', 'shutdown', 'shutdown']]
 SEQS_MORE = SEQS + [['start', 'shutdown', 'swap', 'start', 'shutdown'], ['start', 'shutdown', 'swap', 'start', 'shutdown']]
